@@ -26,6 +26,9 @@ def run(ctx):
     ctx.rule("R19-5", "every literal the grammar accepts as `num` is a string Rust's f64 parser accepts (the float evaluator "
                       "unwraps that parse): all strings up to 5 characters over {+ - . e E 0 1} that the rule `num` matches "
                       "entirely (grammar evaluated as data with a PEG interpreter) fit [+-]?(d+.?d*|.d+)([eE][+-]?d+)?")
+    ctx.rule("R19-6", "the grammar accepts exactly the well-formed infix expressions: `calculation`, evaluated as data (PEG with "
+                      "implicit whitespace), agrees with the reference expr = term (op term)*, term = num | ( expr ) on "
+                      "every token sequence of up to 5 tokens (thorough: 6) over {1, 2.5, + - * / ^, ( )}")
     ctx.rule("R19-4", "no panic-capable site in the evaluators is undischarged; integer division only under rhs != 0")
     gpath = os.path.join(ctx.root, "src", "calculator", "grammar.pest")
     try:
@@ -40,6 +43,7 @@ def run(ctx):
         evaluator_rules(ctx, crate)
         if g is not None:
             num_syntax_rule(ctx, crate, g, "R19-5")
+            infix_rule(ctx, crate, g)
         mode_rule(ctx, crate)
         panic_rule(ctx, crate)
 
@@ -223,3 +227,63 @@ def num_syntax_rule(ctx, crate, g, rule):
            % len(cache), bool(cache) and not bad, key="%s|grammar|num-parses-as-f64" % rule, crate=crate.kind,
            detail=None if not bad else "e.g. %s: the line `1 + %s` reaches parse::<f64>().unwrap() in eval_float and the shell "
            "panics" % (", ".join(repr(x) for x in bad[:5]), bad[0]))
+
+
+def _wellformed(toks):
+    n = len(toks)
+
+    def expr(i):
+        """positions after a complete expr starting at i"""
+        out = set()
+        for j in term(i):
+            out.add(j)
+            work = {j}
+            seen = set()
+            while work:
+                k = work.pop()
+                if k in seen:
+                    continue
+                seen.add(k)
+                if k < n and toks[k] in "+-*/^":
+                    for m in term(k + 1):
+                        out.add(m)
+                        work.add(m)
+        return out
+
+    def term(i):
+        if i >= n:
+            return set()
+        if toks[i] in ("1", "2.5"):
+            return {i + 1}
+        if toks[i] == "(":
+            return {j + 1 for j in expr(i + 1) if j < n and toks[j] == ")"}
+        return set()
+    return n in expr(0)
+
+
+def infix_rule(ctx, crate, g):
+    import itertools
+    if not ctx.require("calculation" in g.rules, "R19-6", "R19-6|grammar|calculation", "grammar has no rule `calculation`"):
+        return
+    cache = g.__dict__.get("_infix_result")
+    if cache is None:
+        alphabet = ["1", "2.5", "+", "-", "*", "/", "^", "(", ")"]
+        maxlen = 6 if ctx.tier == "thorough" else 5
+        bad, n = [], 0
+        for ln in range(1, maxlen + 1):
+            for toks in itertools.product(alphabet, repeat=ln):
+                # a sign directly followed by a digit is part of the number: keep operators and numbers apart
+                text = " ".join(toks)
+                want = _wellformed(toks)
+                got = g.accepts("calculation", text)
+                n += 1
+                if want != got and len(bad) < 5:
+                    bad.append((text, want, got))
+        cache = (bad, n, maxlen)
+        g.__dict__["_infix_result"] = cache
+    bad, n, maxlen = cache
+    ctx.paths_enumerated += n
+    ctx.ob("R19-6", "calculator::grammar", "grammar and reference agree on %d token sequences (<= %d tokens)" % (n, maxlen),
+           not bad, key="R19-6|grammar|infix-agreement", crate=crate.kind,
+           detail=None if not bad else "`%s`: the grammar %s it, the reference %s" % (
+               bad[0][0], "accepts" if bad[0][2] else "rejects", "accepts" if bad[0][1] else "rejects"))
